@@ -4,7 +4,9 @@
 
     Assumed of the primitives (functional correctness only): AEAD open∘seal,
     ciphertext = plaintext + 16, Diffie-Hellman agreement and 32-byte shares,
-    RSA-OAEP decrypt∘encrypt.  Where the truth depends on a run-time
+    RSA-OAEP decrypt∘encrypt; in two theorems, visibly in the statement, a
+    length fact (HMAC output is 32 bytes; the hash of an SSH key is not empty).
+    Where the truth depends on a run-time
     cryptographic event (an unrelated key accidentally authenticating, a
     32-bit SSH tag collision) the event appears as an explicit hypothesis on
     the run, never as an assumption on the primitives. *)
@@ -33,6 +35,9 @@ Section C01h.
   Theorem C01_native_stanzas_wf :
     forall (r : recipient) (fk tape tape' : bytes) st l,
       (match r with RStub _ _ _ => False | _ => True end) ->
+      (* guard (AgeFacts.native_stanzas_wf_refuted): the SSH key hash is not the
+         empty string, else the 4-byte tag argument would be empty *)
+      (match r with RSshEd blob _ | RSshRsa blob => sha256 P blob <> [] | _ => True end) ->
       wrap P r fk tape = Ok (st, l, tape') -> Forall (fun s => wf_stanza s = true) st.
   Proof. exact (native_stanzas_wf P HL). Qed.
 
@@ -66,6 +71,9 @@ Section C01h.
   Theorem C01_decrypt_roundtrip :
     forall (cs : nat) (rs : list recipient) (tape p : bytes) (pl : enc_plan)
            (pre post : list identity) (i : identity),
+      (* guard (AgeFacts.decrypt_roundtrip_refuted): HMAC-SHA-256 returns 32
+         bytes, else Parse rejects the MAC line Encrypt wrote *)
+      (forall k m, length (hmac P k m) = 32%nat) ->
       (0 < cs)%nat ->
       plan_encrypt P rs tape = Ok pl ->
       Forall (fun s => wf_stanza s = true) (ep_stanzas pl) ->
@@ -81,7 +89,7 @@ Section C01h.
         (let '(released, oc, attempts) := decrypt_spec cs (aead_open P (do_key o)) (do_payload o) in
          no_forgery (enc_chunks cs (aead_seal P (do_key o)) 0 p) attempts ->
          released = p /\ oc = CleanEOF).
-  Proof. exact (decrypt_roundtrip P HA HD HL HR). Qed.
+  Proof. exact (decrypt_roundtrip P HA). Qed.
 
   (** The same file through the ASCII armor: de-armoring the armored file
       gives back the file (C08), so the statement above applies verbatim. *)
